@@ -1,8 +1,362 @@
-//! C11 observations (see props/c11.py for the consumer).
+//! C11 observations: `spdcalc::math::schmidt_number` on generated flat arrays (length check, values, invariances) and
+//! `JointSpectrum::schmidt_number` against the function applied to `jsa_range` (see props/c11.py for the consumer).
+//!
+//! args: seed  n_value_cases  max_side  n_setup_cases
 #![allow(unused_imports, dead_code)]
 use crate::common::*;
-use serde_json::json;
+use serde_json::{json, Value};
+use spdcalc::dim::ucum::{M, RAD, S};
+use spdcalc::math::{schmidt_number, Integrator};
+use spdcalc::na::DMatrix;
+use spdcalc::*;
 
-pub fn run(_args: &[String]) {
-  emit(json!({"kind": "not_implemented", "property": "C11"}));
+type C = Complex<f64>;
+
+fn outcome(a: &[C]) -> (String, f64, String) {
+  let v: Vec<C> = a.to_vec();
+  match guarded(move || schmidt_number(v)) {
+    Ok(Ok(k)) => ("ok".into(), k, String::new()),
+    Ok(Err(e)) => ("err".into(), f64::NAN, e.0),
+    Err(p) => ("panic".into(), f64::NAN, p),
+  }
+}
+
+fn kjson(a: &[C]) -> Value {
+  let (cls, k, msg) = outcome(a);
+  json!({"class": cls, "k": fx(k), "msg": msg})
+}
+
+/// unit-like Gaussian integers with integer modulus: (re, im, |.|)
+const UNITS: [(i64, i64, i64); 12] = [
+  (1, 0, 1),
+  (0, 1, 1),
+  (-1, 0, 1),
+  (0, -1, 1),
+  (3, 4, 5),
+  (-4, 3, 5),
+  (4, -3, 5),
+  (5, 12, 13),
+  (-12, 5, 13),
+  (8, 15, 17),
+  (-15, -8, 17),
+  (-3, -4, 5),
+];
+const UNIT_MOD1: usize = 4;
+
+fn transpose(a: &[C], n: usize) -> Vec<C> {
+  let mut t = a.to_vec();
+  for r in 0..n {
+    for c in 0..n {
+      t[c * n + r] = a[r * n + c];
+    }
+  }
+  t
+}
+
+/// the singular-value power sums of the magnitude matrix, computed with the same nalgebra call the implementation makes
+fn sv_sums(mag: &[f64], n: usize) -> Option<(f64, f64)> {
+  let m = mag.to_vec();
+  guarded(move || {
+    DMatrix::from_row_slice(n, n, &m)
+      .try_svd(false, false, f64::EPSILON, 10_000)
+      .map(|svd| {
+        let s2: f64 = svd.singular_values.iter().map(|x| x * x).sum();
+        let s4: f64 = svd.singular_values.iter().map(|x| x.powi(4)).sum();
+        (s2, s4)
+      })
+  })
+  .ok()
+  .flatten()
+}
+
+fn emit_value_case(rng: &mut Rng, family: &str, n: usize, re: Vec<i64>, im: Vec<i64>, fscale: f64) {
+  // the array handed to the implementation: integer Gaussian entries times a power-of-two scale (exact in binary64)
+  let a: Vec<C> = re.iter().zip(im.iter()).map(|(x, y)| C::new(*x as f64 * fscale, *y as f64 * fscale)).collect();
+  let mag: Vec<f64> = a.iter().map(|z| z.norm()).collect();
+  let base = kjson(&a);
+  // invariance variants
+  let c = C::new(rng.range(-3.0, 3.0), rng.range(0.25, 3.0));
+  let scaled: Vec<C> = a.iter().map(|z| z * c).collect();
+  let phased: Vec<C> = a.iter().map(|z| z * C::from_polar(1.0, rng.range(-3.2, 3.2))).collect();
+  let transposed = transpose(&a, n);
+  let conj: Vec<C> = a.iter().map(|z| z.conj()).collect();
+  let sv = sv_sums(&mag, n);
+  emit(json!({
+    "kind": "val", "family": family, "n": n, "re": re, "im": im, "scale": fx(fscale),
+    "mag": fxs(&mag), "base": base,
+    "scaled": kjson(&scaled), "scale_c": [fx(c.re), fx(c.im)],
+    "phased": kjson(&phased), "transposed": kjson(&transposed), "conj": kjson(&conj),
+    "sv2": sv.map(|s| fx(s.0)), "sv4": sv.map(|s| fx(s.1)),
+  }));
+}
+
+fn gen_value_cases(rng: &mut Rng, ncases: usize, max_side: usize) {
+  let families = ["random", "sparse", "rank1", "diag", "perm", "diag_uneq", "block"];
+  for case in 0..ncases {
+    // sides: all small sides first, then random up to max_side
+    let n = if case < 2 * max_side.min(12) { 1 + case / 2 } else { 1 + rng.below(max_side) };
+    let family = families[case % families.len()];
+    let mut re = vec![0i64; n * n];
+    let mut im = vec![0i64; n * n];
+    let put = |re: &mut Vec<i64>, im: &mut Vec<i64>, k: usize, m: i64, u: (i64, i64, i64)| {
+      re[k] = m * u.0;
+      im[k] = m * u.1;
+    };
+    match family {
+      "random" => {
+        for k in 0..n * n {
+          let u = UNITS[rng.below(UNITS.len())];
+          put(&mut re, &mut im, k, rng.below(33) as i64, u);
+        }
+      }
+      "sparse" => {
+        for k in 0..n * n {
+          if rng.below(4) == 0 {
+            let u = UNITS[rng.below(UNITS.len())];
+            put(&mut re, &mut im, k, 1 + rng.below(16) as i64, u);
+          }
+        }
+        // keep the array non-zero
+        let k = rng.below(n * n);
+        if re.iter().all(|x| *x == 0) && im.iter().all(|x| *x == 0) {
+          put(&mut re, &mut im, k, 3, UNITS[1]);
+        }
+      }
+      "rank1" => {
+        // |a_rc| = p_r q_c with unit-modulus phases, optionally times a common Gaussian integer
+        let p: Vec<i64> = (0..n).map(|_| rng.below(9) as i64).collect();
+        let q: Vec<i64> = (0..n).map(|_| rng.below(9) as i64).collect();
+        let (mut p, mut q) = (p, q);
+        p[rng.below(n)] = 1 + rng.below(8) as i64;
+        q[rng.below(n)] = 1 + rng.below(8) as i64;
+        let common = UNITS[rng.below(UNITS.len())];
+        for r in 0..n {
+          for c in 0..n {
+            let u = UNITS[rng.below(UNIT_MOD1)];
+            // (u * common) has modulus |common|
+            let ur = u.0 * common.0 - u.1 * common.1;
+            let ui = u.0 * common.1 + u.1 * common.0;
+            re[r * n + c] = p[r] * q[c] * ur;
+            im[r * n + c] = p[r] * q[c] * ui;
+          }
+        }
+      }
+      "diag" | "perm" => {
+        // equal magnitudes on a (permuted) diagonal, arbitrary unit phases
+        let m = 1 + rng.below(20) as i64;
+        let mut perm: Vec<usize> = (0..n).collect();
+        if family == "perm" {
+          for i in (1..n).rev() {
+            let j = rng.below(i + 1);
+            perm.swap(i, j);
+          }
+        }
+        for r in 0..n {
+          let u = UNITS[rng.below(UNIT_MOD1)];
+          put(&mut re, &mut im, r * n + perm[r], m, u);
+        }
+      }
+      "diag_uneq" => {
+        for r in 0..n {
+          let u = UNITS[rng.below(UNITS.len())];
+          put(&mut re, &mut im, r * n + r, 1 + rng.below(12) as i64, u);
+        }
+      }
+      _ => {
+        // block: two rank-1 blocks on the diagonal (K between 1 and 2)
+        let h = n / 2;
+        for r in 0..n {
+          for c in 0..n {
+            if (r < h) == (c < h) {
+              let u = UNITS[rng.below(UNIT_MOD1)];
+              let m = if r < h { 2 } else { 3 };
+              put(&mut re, &mut im, r * n + c, m, u);
+            }
+          }
+        }
+      }
+    }
+    let fscale = [1.0, 0.5, 0.0625, 4.0, 1.0 / 1024.0][rng.below(5)];
+    emit_value_case(rng, family, n, re, im, fscale);
+  }
+}
+
+fn float_cases(rng: &mut Rng, ncases: usize, max_side: usize) {
+  // arbitrary binary64 entries; the consumer recomputes (tr G)^2 / tr G^2 exactly from the magnitudes Rust computed
+  for _ in 0..ncases {
+    let n = 1 + rng.below(max_side.min(14));
+    let shape = rng.below(3);
+    let a: Vec<C> = (0..n * n)
+      .map(|k| {
+        let (r, c) = (k / n, k % n);
+        let amp = match shape {
+          0 => rng.range(0.0, 1.0),
+          1 => (-(((r as f64) - (c as f64)).powi(2)) / 3.0).exp() * rng.range(0.5, 1.0),
+          _ => (-((r as f64 + c as f64 - n as f64).powi(2)) / 8.0 - ((r as f64) - (c as f64)).powi(2) / 2.0).exp(),
+        };
+        C::from_polar(amp, rng.range(-3.2, 3.2))
+      })
+      .collect();
+    let mag: Vec<f64> = a.iter().map(|z| z.norm()).collect();
+    let c = C::from_polar(rng.log_range(1e-3, 1e3), rng.range(-3.2, 3.2));
+    let scaled: Vec<C> = a.iter().map(|z| z * c).collect();
+    let phased: Vec<C> = a.iter().map(|z| z * C::from_polar(1.0, rng.range(-3.2, 3.2))).collect();
+    let sv = sv_sums(&mag, n);
+    emit(json!({
+      "kind": "fval", "n": n, "shape": shape,
+      "re": fxs(&a.iter().map(|z| z.re).collect::<Vec<_>>()), "im": fxs(&a.iter().map(|z| z.im).collect::<Vec<_>>()),
+      "mag": fxs(&mag), "base": kjson(&a), "scaled": kjson(&scaled), "phased": kjson(&phased),
+      "transposed": kjson(&transpose(&a, n)),
+      "sv2": sv.map(|s| fx(s.0)), "sv4": sv.map(|s| fx(s.1)),
+    }));
+  }
+}
+
+fn length_cases(rng: &mut Rng, max_len: usize) {
+  // every length 0..=max_len; content: a fixed non-trivial pattern so accepted lengths also produce a value
+  let mut ok: Vec<usize> = vec![];
+  let mut err: Vec<usize> = vec![];
+  let mut other: Vec<Value> = vec![];
+  let mut msgs: Vec<String> = vec![];
+  let mut ks: Vec<Value> = vec![];
+  for len in 0..=max_len {
+    let a: Vec<C> = (0..len).map(|k| C::new(1.0 + (k % 3) as f64, (k % 2) as f64)).collect();
+    let (cls, k, msg) = outcome(&a);
+    match cls.as_str() {
+      "ok" => {
+        ok.push(len);
+        ks.push(json!([len, fx(k)]));
+      }
+      "err" => {
+        err.push(len);
+        if !msgs.contains(&msg) {
+          msgs.push(msg);
+        }
+      }
+      _ => other.push(json!([len, cls, msg])),
+    }
+  }
+  emit(json!({"kind": "lens", "max": max_len, "ok": ok, "err": err, "other": other, "errmsgs": msgs, "ks": ks}));
+  // large lengths: neighbours of squares and random non-squares (non-squares return before any allocation of a matrix)
+  let mut big: Vec<Value> = vec![];
+  let mut lens: Vec<usize> = vec![];
+  for _ in 0..40 {
+    let d = 45 + rng.below(960);
+    lens.push(d * d - 1);
+    lens.push(d * d + 1);
+    lens.push(d * d + d);
+    lens.push(rng.below(1_000_000) + 2026);
+  }
+  // a few large perfect squares (sparse content keeps the SVD cheap enough)
+  for d in [45usize, 64, 100, 128] {
+    lens.push(d * d);
+  }
+  for len in lens {
+    let a: Vec<C> = (0..len).map(|k| if k % 7 == 0 { C::new(1.0, 0.0) } else { C::new(0.0, 0.0) }).collect();
+    let (cls, _k, msg) = outcome(&a);
+    big.push(json!([len, cls, msg]));
+  }
+  emit(json!({"kind": "biglens", "cases": big}));
+}
+
+pub fn setups() -> Vec<(&'static str, Value)> {
+  vec![
+    ("default", json!({})),
+    ("ktp_pp_type2", json!({
+      "crystal": {"kind": "KTP", "pm_type": "e->eo", "phi_deg": 0, "theta_deg": 90, "length_um": 14000, "temperature_c": 20},
+      "pump": {"wavelength_nm": 775, "waist_um": 200, "bandwidth_nm": 0.5, "average_power_mw": 300},
+      "signal": {"wavelength_nm": 1550, "phi_deg": 0, "theta_external_deg": 0, "waist_um": 100, "waist_position_um": "auto"},
+      "idler": "auto", "periodic_poling": {"poling_period_um": "auto"}, "deff_pm_per_volt": 7.6})),
+    ("bbo_type1", json!({
+      "crystal": {"kind": "BBO_1", "pm_type": "e->oo", "phi_deg": 0, "theta_deg": "auto", "length_um": 2000, "temperature_c": 20},
+      "pump": {"wavelength_nm": 405, "waist_um": 100, "bandwidth_nm": 1.0, "average_power_mw": 1},
+      "signal": {"wavelength_nm": 810, "phi_deg": 0, "theta_deg": 0, "waist_um": 100, "waist_position_um": "auto"},
+      "idler": "auto", "deff_pm_per_volt": 1.0})),
+    ("ktp_pp_type0_nondeg", json!({
+      "crystal": {"kind": "KTP", "pm_type": "e->ee", "phi_deg": 0, "theta_deg": 90, "length_um": 5000, "temperature_c": 30},
+      "pump": {"wavelength_nm": 532, "waist_um": 80, "bandwidth_nm": 0.8, "average_power_mw": 10},
+      "signal": {"wavelength_nm": 810, "phi_deg": 0, "theta_deg": 0, "waist_um": 60, "waist_position_um": "auto"},
+      "idler": "auto", "periodic_poling": {"poling_period_um": "auto"}, "deff_pm_per_volt": 3.0})),
+  ]
+}
+
+pub fn build_setup(v: &Value) -> Result<SPDC, String> {
+  let v = v.clone();
+  match guarded(move || -> Result<SPDC, String> {
+    let cfg: SPDCConfig = if v.as_object().map(|o| o.is_empty()).unwrap_or(false) {
+      SPDCConfig::default()
+    } else {
+      serde_json::from_value(v).map_err(|e| e.to_string())?
+    };
+    cfg.try_as_spdc().map_err(|e| e.0)
+  }) {
+    Ok(r) => r,
+    Err(p) => Err(format!("panic: {}", p)),
+  }
+}
+
+fn setup_cases(rng: &mut Rng, ncases: usize) {
+  let list = setups();
+  for case in 0..ncases {
+    let (name, cfg) = &list[case % list.len()];
+    let spdc = match build_setup(cfg) {
+      Ok(s) => s,
+      Err(e) => {
+        emit(json!({"kind": "setup_skip", "setup": name, "why": e}));
+        continue;
+      }
+    };
+    let n = 2 + rng.below(if case < list.len() { 6 } else { 14 });
+    let range: FrequencySpace = if case % 3 == 2 {
+      // a hand-made wavelength window around the degenerate point, converted as the API does
+      let ls = *(spdc.signal.vacuum_wavelength() / M);
+      let li = *(spdc.idler.vacuum_wavelength() / M);
+      let w = rng.range(0.002, 0.02);
+      WavelengthSpace::new((ls * (1.0 - w) * M, ls * (1.0 + w) * M, n), (li * (1.0 - w) * M, li * (1.0 + w) * M, n)).into()
+    } else {
+      spdc.optimum_range(n)
+    };
+    let st = range.as_steps();
+    let integrator = Integrator::default();
+    let sp = spdc.joint_spectrum(integrator);
+    let amps = sp.jsa_range(range);
+    let mag: Vec<f64> = amps.iter().map(|z| z.norm()).collect();
+    let direct = match guarded(move || sp.schmidt_number(range)) {
+      Ok(Ok(k)) => json!({"class": "ok", "k": fx(k), "msg": ""}),
+      Ok(Err(e)) => json!({"class": "err", "k": fx(f64::NAN), "msg": e.0}),
+      Err(p) => json!({"class": "panic", "k": fx(f64::NAN), "msg": p}),
+    };
+    emit(json!({
+      "kind": "setup", "setup": name, "n": n,
+      "xs": [fx(*(st.0 .0 / (RAD / S))), fx(*(st.0 .1 / (RAD / S)))], "ys": [fx(*(st.1 .0 / (RAD / S))), fx(*(st.1 .1 / (RAD / S)))],
+      "mag": fxs(&mag), "direct": direct, "via_array": kjson(&amps),
+    }));
+  }
+}
+
+/// behaviour outside the binary64 range of sigma^4 (reported as a note by the consumer, not judged)
+fn extreme_cases() {
+  let base: Vec<C> = vec![C::new(1.0, 0.0), C::new(0.5, 0.0), C::new(0.25, 0.0), C::new(2.0, 1.0)];
+  let mut rows: Vec<Value> = vec![];
+  for e in [0i32, -60, -70, -80, -100, 60, 70, 80, 160] {
+    let s = 10f64.powi(e);
+    let a: Vec<C> = base.iter().map(|z| z * s).collect();
+    rows.push(json!({"scale_exp10": e, "result": kjson(&a)}));
+  }
+  let zero = vec![C::new(0.0, 0.0); 4];
+  emit(json!({"kind": "extreme", "rows": rows, "zero": kjson(&zero)}));
+}
+
+pub fn run(args: &[String]) {
+  let seed = arg_u64(args, 0, 1);
+  let ncases = arg_u64(args, 1, 60) as usize;
+  let max_side = arg_u64(args, 2, 16) as usize;
+  let nsetup = arg_u64(args, 3, 4) as usize;
+  let max_len = arg_u64(args, 4, 2000) as usize;
+  let mut rng = Rng::new(seed);
+  length_cases(&mut rng, max_len);
+  extreme_cases();
+  gen_value_cases(&mut rng, ncases, max_side);
+  float_cases(&mut rng, ncases / 2 + 4, max_side);
+  setup_cases(&mut rng, nsetup);
 }
